@@ -1,2 +1,38 @@
+(* C09 - the dynamic index.  Per-tree instance theorem: inst/InstC09.v (c09_ok shipped n = true).
+   Here, over the model of kio.index: what the booleans mean, and that every other key,
+   version or entity type yields the documented error - never a wrong class. *)
 From Coq Require Import ZArith List Bool String.
-From KioV Require Import Schema.Raw Schema.Coherence.
+From KioV Require Import Schema.Raw Schema.Coherence Schema.CoherenceProofs.
+Import ListNotations.
+
+Theorem c09_listed_class_is_found : forall s i c p t, listed_ok s (i, c) = true -> is_top c = true ->
+  parse_module (rc_module c) = Some p -> rc_type c = Some t ->
+  load_entity_schema s (mp_api p) (mp_version p) t = IOk i.
+Proof. exact listed_ok_spec. Qed.
+Theorem c09_listed_class_is_found_by_key : forall s i c p t k, listed_ok s (i, c) = true -> is_top c = true ->
+  parse_module (rc_module c) = Some p -> rc_type c = Some t -> rc_api_key c = Some k ->
+  load_payload_schema s k (mp_version p) t = IOk i.
+Proof. exact listed_ok_by_key. Qed.
+Print Assumptions c09_listed_class_is_found.
+
+Theorem c09_keys_one_to_one : forall s k1 k2 n, key_map_ok s = true ->
+  name_from_key s k1 = IOk n -> name_from_key s k2 = IOk n -> k1 = k2.
+Proof. exact key_map_injective. Qed.
+Print Assumptions c09_keys_one_to_one.
+
+(* unknown key: for EVERY integer not in the key map *)
+Theorem c09_unknown_key : forall s k v t, assoc_z k (s_api_key_map s) = None ->
+  load_payload_schema s k v t = IErr UnknownAPIKey.
+Proof. exact load_payload_unknown_key. Qed.
+(* unknown (name, version, type): for EVERY triple not in the name map *)
+Theorem c09_unknown_entity : forall s name v t,
+  (forall vm, assoc_s name (s_name_map s) = Some vm -> forall tm, assoc_z v vm = Some tm -> assoc_t t tm = None) ->
+  entity_path s name v t = IErr UnknownEntity.
+Proof. exact entity_path_unknown. Qed.
+(* and the lookups fail in no other way *)
+Theorem c09_only_documented_errors : forall s,
+  (forall k e, name_from_key s k = IErr e -> e = UnknownAPIKey /\ assoc_z k (s_api_key_map s) = None) /\
+  (forall name v t e, entity_path s name v t = IErr e -> e = UnknownEntity).
+Proof. intros s. split; [apply name_from_key_err|apply entity_path_err]. Qed.
+Print Assumptions c09_unknown_entity.
+Print Assumptions c09_only_documented_errors.
